@@ -506,6 +506,8 @@ class ConfigValidator:
         """Assert that value is within boundaries for numeric template."""
         if param:
             param = param.split(",")
+            if value != value:  # NaN compares false to every boundary
+                raise self.validation_error(item, validation_failure_info, "{} is not a number".format(value))
             if param[0] != "NONE" and value < float(param[0]):
                 raise self.validation_error(item, validation_failure_info,
                                             "{} is smaller then {}".format(value, param[0]))
